@@ -232,7 +232,95 @@ def scan_error_messages(loader: Any) -> List[Dict[str, Any]]:
     return res
 
 
+def _parents(tree: ast.AST) -> Dict[int, ast.AST]:
+    out: Dict[int, ast.AST] = {}
+    for n in ast.walk(tree):
+        for c in ast.iter_child_nodes(n):
+            out[id(c)] = n
+    return out
+
+
+ENUMERATORS = {"glob", "rglob", "iterdir", "listdir", "scandir", "walk"}
+
+
+def scan_unordered_sources(loader: Any) -> List[Dict[str, Any]]:
+    """C22: order-sensitive sinks.  (1) every enumeration of the file system is consumed through
+    ``sorted(...)``; (2) no ``set`` / ``frozenset`` / set display / set comprehension is converted to text
+    (f-string, str(), repr(), join, format) without ``sorted(...)``; (3) ``set``-typed names ending in
+    ``_set`` are not iterated by a ``for`` statement or formatted directly."""
+    res: List[Dict[str, Any]] = []
+    root = loader.repo / "aas_core_codegen"
+    for p in sorted(root.rglob("*.py")):
+        rel = str(p.relative_to(loader.repo))
+        try:
+            tree = ast.parse(p.read_text(encoding="utf-8"))
+        except SyntaxError:
+            continue
+        par = _parents(tree)
+        n_enum = n_fmt = 0
+
+        def is_sorted_wrapped(node: ast.AST) -> bool:
+            q = par.get(id(node))
+            hops = 0
+            while q is not None and hops < 3:
+                if isinstance(q, ast.Call) and isinstance(q.func, ast.Name) and q.func.id in ("sorted", "len", "bool"):
+                    return True
+                if isinstance(q, (ast.stmt,)):
+                    return False
+                q = par.get(id(q))
+                hops += 1
+            return False
+
+        def is_set_expr(e: ast.AST) -> bool:
+            if isinstance(e, (ast.Set, ast.SetComp)):
+                return True
+            if isinstance(e, ast.Call) and isinstance(e.func, ast.Name) and e.func.id in ("set", "frozenset"):
+                return True
+            if isinstance(e, ast.Name) and e.id.endswith("_set") and not e.id.endswith("_id_set"):
+                return True
+            return False
+
+        for node in ast.walk(tree):
+            if isinstance(node, ast.Call) and isinstance(node.func, ast.Attribute) and node.func.attr in ENUMERATORS:
+                base = node.func.value
+                if node.func.attr == "walk" and not (isinstance(base, ast.Name) and base.id == "os"):
+                    continue
+                if node.func.attr in ("glob",) and isinstance(base, ast.Name) and base.id in ("glob",):
+                    pass
+                n_enum += 1
+                ok = is_sorted_wrapped(node)
+                res.append({"key": f"{rel}:enumeration#{n_enum}:sorted", "ok": ok, "line": node.lineno, "func": rel,
+                            "desc": f"the result of .{node.func.attr}(...) is consumed through sorted(...)",
+                            "detail": None if ok else f"line {node.lineno}: {ast.unparse(node)[:80]}"})
+            sinks: List[ast.AST] = []
+            if isinstance(node, ast.FormattedValue):
+                sinks.append(node.value)
+            elif isinstance(node, ast.Call) and isinstance(node.func, ast.Name) and node.func.id in ("str", "repr") and node.args:
+                sinks.append(node.args[0])
+            elif isinstance(node, ast.Call) and isinstance(node.func, ast.Attribute) and node.func.attr in ("join", "format"):
+                sinks.extend(node.args)
+            elif isinstance(node, ast.For):
+                if isinstance(node.iter, ast.Name) and is_set_expr(node.iter):
+                    sinks.append(node.iter)
+            for sk in sinks:
+                if is_set_expr(sk):
+                    n_fmt += 1
+                    res.append({"key": f"{rel}:set-to-text#{n_fmt}", "ok": False, "line": getattr(sk, "lineno", 0),
+                                "func": rel, "desc": "a set is never rendered / iterated in hash order",
+                                "detail": f"line {getattr(sk, 'lineno', 0)}: {ast.unparse(sk)[:80]}"})
+        res.append({"key": f"{rel}:no-set-rendered-in-hash-order", "ok": True, "func": rel, "line": 0,
+                    "desc": "no set-typed expression flows into text or a for statement without sorted(...)"})
+    return res
+
+
+from pyvc.units import Native  # noqa: E402
+
 UNITS = [
+    Scan("unordered-sources", ["C22"], scan_unordered_sources),
+    Native("same output under different hash seeds (bounded)", ["C22"], "native.c22:bounded", kind="bounded",
+           bound="4 runs (3 valid models on jsonschema/xsd/python + 1 rejected model) x PYTHONHASHSEED in {0,1,2} "
+                 "(thorough: 0..5): exit status, stdout, stderr and every output file compared",
+           args={"seeds": ["0", "1", "2"]}, thorough_args={"seeds": ["0", "1", "2", "3", "4", "5"]}, timeout_s=1500),
     Scan("target-execute-skeleton", ["C03", "C02", "C28"], scan_execute_skeleton),
     Scan("report-headlines", ["C03", "C02"], scan_report_headlines),
     Scan("error-messages", ["C03", "C01"], scan_error_messages),
